@@ -46,7 +46,10 @@ PodSelCat ==
 NsSelCat ==
   { EmptySel, MLSel(L1("team", "x")), MLSel(L1(NameKey, "ns1")), MLSel(L1(NameKey, "ns3")),
     MLSel(L1(NameKey, "nsx")), ExSel(NameKey, "In", <<"ns1", "ns2">>), ExSel(NameKey, "NotIn", <<"ns1">>),
-    ExSel("team", "NotIn", <<"x">>), ExSel("env", "Exists", <<>>), ExSel("env", "DoesNotExist", <<>>) }
+    ExSel("team", "NotIn", <<"x">>), ExSel("env", "Exists", <<>>), ExSel("env", "DoesNotExist", <<>>),
+    [ml |-> L1("team", "x"), ex |-> <<[key |-> "env", op |-> "Exists", vals |-> <<>>]>>],
+    [ml |-> L1("team", "y"), ex |-> <<[key |-> "env", op |-> "In", vals |-> <<"y", "z">>]>>],
+    [ml |-> L1(NameKey, "ns1"), ex |-> <<[key |-> "team", op |-> "NotIn", vals |-> <<"x">>]>>] }
 
 Blk(lo, hi) == [all |-> FALSE, lo |-> lo, hi |-> hi]
 AllBlk == [all |-> TRUE, lo |-> 0, hi |-> 7]
@@ -69,8 +72,10 @@ PodPeerCat ==
   {PodPeer(TRUE, EmptySel, FALSE, s) : s \in PodSelCat}
   \cup {PodPeer(FALSE, s, TRUE, EmptySel) : s \in NsSelCat}
   \cup {PodPeer(FALSE, n, FALSE, p) :
-          n \in {EmptySel, MLSel(L1("team", "x")), MLSel(L1(NameKey, "ns1")), ExSel("team", "NotIn", <<"x">>)},
-          p \in {EmptySel, MLSel(L1("app", "a")), ExSel("app", "NotIn", <<"a">>), ExSel("tier", "Exists", <<>>)}}
+          n \in {EmptySel, MLSel(L1("team", "x")), MLSel(L1(NameKey, "ns1")), ExSel("team", "NotIn", <<"x">>),
+                 [ml |-> L1("team", "x"), ex |-> <<[key |-> "env", op |-> "Exists", vals |-> <<>>]>>],
+                 [ml |-> L1("team", "y"), ex |-> <<[key |-> "env", op |-> "In", vals |-> <<"y", "z">>]>>]},
+          p \in {EmptySel, MLSel(L1("app", "a")), MLSel(L1("tier", "b")), ExSel("app", "NotIn", <<"a">>), ExSel("tier", "Exists", <<>>)}}
 
 NPPort(protoNil, proto, kind, num, name, endNil, end) ==
   [protoNil |-> protoNil, proto |-> proto, kind |-> kind, num |-> num, name |-> name,
@@ -97,6 +102,8 @@ WlCat ==
     [ns |-> "ns2", labels |-> L1("app", "a"),              ports |-> <<>>],
     [ns |-> "ns2", labels |-> L2("app", "a", "tier", "b"), ports |-> <<CP("http", "UDP", 2), CP("web", "TCP", 4)>>],
     [ns |-> "ns3", labels |-> NoLabels,                    ports |-> <<CP("http", "TCP", 4)>>],
+    [ns |-> "ns1", labels |-> L2("app", "a", "tier", "b"), ports |-> <<CP("http", "TCP", 2), CP("web", "TCP", 4)>>],
+    [ns |-> "ns2", labels |-> L1("tier", "b"),             ports |-> <<CP("web", "TCP", 2), CP("", "TCP", 4), CP("dns", "UDP", 4)>>],
     [ns |-> "ns3", labels |-> L1("tier", "c"),             ports |-> <<CP("web", "TCP", 2), CP("dns", "UDP", 2)>>] }
 
 ControllerKinds == {"Deployment", "ReplicaSet", "StatefulSet", "DaemonSet", "Job", "CronJob", "ReplicationController"}
@@ -315,6 +322,28 @@ SplitCidr ==
                                     <<IPPeer(Blk(p.cidr.lo, mid - 1), sub(p.cidr.lo, mid - 1)),
                                       IPPeer(Blk(mid, p.cidr.hi), sub(mid, p.cidr.hi))>> \o Tail(@)])])
 
+(* not a re-spelling: the first peer of the last rule moves to another block, the ports stay *)
+MoveCidr ==
+  \E id \in Pick(Where(LAMBDA i, d : /\ Len(LastRule(i, d).peers) \in 1..3
+                                      /\ LastRule(i, d).peers[1].kind = "ip")) :
+    \E b \in Pick({Blk(0, 1), Blk(2, 3), Blk(4, 5), Blk(6, 7), Blk(0, 3), Blk(4, 7), Blk(2, 2), Blk(3, 3), Blk(5, 5)}) :
+      /\ LET i == id[1]
+             dir == id[2]
+             rs == NPRules(world.netpols[i], dir)
+         IN /\ rs[Len(rs)].peers[1].cidr # b
+            /\ Step("MoveCidr", <<i, dir>>,
+                    [world EXCEPT !.netpols[i] = WithRules(@, dir, [rs EXCEPT ![Len(rs)].peers[1] = IPPeer(b, <<>>)])])
+
+MoveCidrAgain == MoveCidr
+
+RemoveRule ==
+  \E id \in Pick(Where(LAMBDA i, d : TRUE)) :
+    /\ Rarely(2)
+    /\ LET i == id[1]
+           dir == id[2]
+           rs == NPRules(world.netpols[i], dir)
+       IN Step("RemoveRule", <<i, dir>>, [world EXCEPT !.netpols[i] = WithRules(@, dir, SubSeq(rs, 1, Len(rs) - 1))])
+
 (* one policy -> the same rules split over two policies with the same selector and the same *effective* types *)
 SplitPolicy ==
   /\ Len(world.netpols) > 0 /\ Len(world.netpols) < MaxNP
@@ -343,7 +372,7 @@ AddRuleAgain == AddRule      \* listed twice: TLC's simulator picks uniformly am
 AddRuleOnceMore == AddRule
 NPNext == AddRuleAgain \/ AddRuleOnceMore \/ AddWorkload \/ RemoveWorkload \/ ReExpressWorkload \/ RelabelNamespace \/ AddPolicy \/ AddRule \/ AddPeer \/ AddPort
           \/ SetPolicyTypes \/ RemovePolicy \/ RespellPodSelAsIn \/ RespellPeerSelAsIn \/ SplitRange \/ SplitCidr
-          \/ SplitPolicy \/ ExplicitPolicyTypes
+          \/ SplitPolicy \/ ExplicitPolicyTypes \/ MoveCidr \/ MoveCidrAgain \/ RemoveRule
 
 ---------------------------------------------------------------------------
 (* ---- admin policies (C02) ---- *)
@@ -415,7 +444,10 @@ SwapANPs ==
        Step("SwapANPs", <<i>>,
             [world EXCEPT !.anps = [@ EXCEPT ![i] = world.anps[i + 1], ![i + 1] = world.anps[i]]])
 
-AdminNext == AddANP \/ AddANPRule \/ AddANPRulePeer \/ SetBANP \/ AddBANPRule \/ SwapANPs
+AddANPRuleAgain == AddANPRule
+AddANPRuleOnceMore == AddANPRule
+AddBANPRuleAgain == AddBANPRule
+AdminNext == AddANP \/ AddANPRule \/ AddANPRuleAgain \/ AddANPRuleOnceMore \/ AddANPRulePeer \/ SetBANP \/ AddBANPRule \/ AddBANPRuleAgain \/ SwapANPs
 
 ---------------------------------------------------------------------------
 (* ---- Services / Ingress / Routes (C10) ---- *)
@@ -428,7 +460,9 @@ SvcPortsCat ==
   { <<SP("", 2, OptNil)>>, <<SP("p1", 2, OptNum(4))>>, <<SP("p1", 4, OptName("http"))>>,
     <<SP("p1", 2, OptNum(4)), SP("p2", 4, OptNum(2))>>,
     <<SP("p1", 2, OptName("web")), SP("p2", 4, OptName("dns"))>>,
-    <<SP("a", 4, OptNil), SP("b", 2, OptName("nosuch"))>> }
+    <<SP("a", 4, OptNil), SP("b", 2, OptName("nosuch"))>>,
+    <<SP("p1", 2, OptName("http")), SP("p2", 4, OptName("web"))>>,
+    <<SP("p1", 2, OptNil), SP("p2", 4, OptNil), SP("a", 1, OptNum(2))>> }
 
 SvcName(i) == "svc" \o ToString(i)
 
@@ -444,18 +478,25 @@ AddService ==
 BackendPortCat == {OptNum(2), OptNum(4), OptName("p1"), OptName("p2"), OptName("a"), OptName("zz")}
 SvcRefCat == {"svc1", "svc2", "svc3", "nosvc"}
 
+(* backends of one Ingress: several of them may target one service through different ports *)
+BackendListCat(s1, s2) ==
+  { <<[svc |-> s1, port |-> OptName("p1")]>>, <<[svc |-> s1, port |-> OptNum(2)]>>, <<[svc |-> s1, port |-> OptNum(4)]>>,
+    <<[svc |-> s1, port |-> OptName("p1")], [svc |-> s1, port |-> OptName("p2")]>>,
+    <<[svc |-> s1, port |-> OptName("p2")], [svc |-> s1, port |-> OptName("p1")]>>,
+    <<[svc |-> s1, port |-> OptNum(2)], [svc |-> s1, port |-> OptName("p2")]>>,
+    <<[svc |-> s1, port |-> OptName("a")], [svc |-> s2, port |-> OptName("p1")]>>,
+    <<[svc |-> s1, port |-> OptName("zz")], [svc |-> s1, port |-> OptNum(4)], [svc |-> s2, port |-> OptNum(2)]>> }
+
 AddIngress ==
   /\ Len(world.ingresses) < 2
-  /\ \E ns \in Pick({"ns1", "ns2", "ns3"}), dn \in Pick(BOOLEAN), s1 \in Pick(SvcRefCat), p1 \in Pick(BackendPortCat),
-        nr \in Pick(0..2), s2 \in Pick(SvcRefCat), p2 \in Pick(BackendPortCat) :
-       LET i == Len(world.ingresses) + 1
-           be1 == [svc |-> s1, port |-> p1]
-           be2 == [svc |-> s2, port |-> p2]
-           rules == IF nr = 0 THEN <<>> ELSE IF nr = 1 THEN <<be2>> ELSE <<be2, be1>>
-       IN /\ (~dn \/ nr > 0)
-          /\ Step("AddIngress", <<i>>,
-                  [world EXCEPT !.ingresses = Append(@, [ns |-> ns, name |-> "ing" \o ToString(i), defaultNil |-> dn,
-                                                        default |-> be1, rules |-> rules])])
+  /\ \E ns \in Pick({"ns1", "ns2", "ns3"}), dn \in Pick(BOOLEAN), s1 \in Pick(SvcRefCat), s2 \in Pick(SvcRefCat) :
+       \E bes \in Pick(BackendListCat(s1, s2)) :
+         LET i == Len(world.ingresses) + 1
+             rules == IF dn THEN bes ELSE Tail(bes)        \* without a default backend every backend is a rule
+         IN /\ (~dn \/ Len(rules) > 0)
+            /\ Step("AddIngress", <<i>>,
+                    [world EXCEPT !.ingresses = Append(@, [ns |-> ns, name |-> "ing" \o ToString(i), defaultNil |-> dn,
+                                                          default |-> Head(bes), rules |-> rules])])
 
 AddRoute ==
   /\ Len(world.routes) < 2
@@ -466,7 +507,59 @@ AddRoute ==
                [world EXCEPT !.routes = Append(@, [ns |-> ns, name |-> "rt" \o ToString(i), to |-> to,
                                                   alternates |-> alt, targetPort |-> tp])])
 
-IngrNext == AddService \/ AddIngress \/ AddRoute
+(* ---- the same three edits, derived from what already exists (so that the chain Ingress -> Service -> workload is   *)
+(* ---- usually complete): a Service for an existing workload's TCP container ports, an Ingress / Route for an        *)
+(* ---- existing Service, possibly with several backends of that one Service                                          *)
+TcpPorts(wl) == SelectSeq(wl.ports, LAMBDA cp : cp.proto = "TCP")
+DerivedSvcPorts(wl, v) ==
+  [k \in 1..Len(TcpPorts(wl)) |->
+     LET cp == TcpPorts(wl)[k]
+     IN SP("p" \o ToString(k), cp.port,
+           IF v = 1 THEN OptNil ELSE IF v = 2 \/ cp.name = "" THEN OptNum(cp.port) ELSE OptName(cp.name))]
+
+AddServiceFor ==
+  /\ Len(world.services) < 3
+  /\ \E i \in Pick({j \in DOMAIN world.workloads : Len(TcpPorts(world.workloads[j])) > 0 /\ DOMAIN world.workloads[j].labels # {}}),
+        v \in Pick(1..3) :
+       LET wl == world.workloads[i]
+           n == Len(world.services) + 1
+       IN Step("AddService", <<n>>,
+               [world EXCEPT !.services = Append(@, [ns |-> wl.ns, name |-> SvcName(n), selNil |-> FALSE,
+                                                    selector |-> wl.labels, ports |-> DerivedSvcPorts(wl, v)])])
+
+ByName(s, k) == [svc |-> s.name, port |-> OptName(s.ports[k].name)]
+ByNum(s, k) == [svc |-> s.name, port |-> OptNum(s.ports[k].port)]
+BackendsOf(s) ==
+  {<<ByName(s, 1)>>, <<ByNum(s, 1)>>}
+  \cup (IF Len(s.ports) >= 2
+        THEN {<<ByName(s, 1), ByName(s, 2)>>, <<ByName(s, 2), ByName(s, 1)>>, <<ByNum(s, 1), ByName(s, 2)>>,
+              <<ByName(s, 2)>>, <<ByNum(s, 2), ByNum(s, 1)>>}
+        ELSE {})
+
+AddIngressFor ==
+  /\ Len(world.ingresses) < 2
+  /\ \E si \in Pick({j \in DOMAIN world.services : Len(world.services[j].ports) > 0 /\ world.services[j].ports[1].name # ""}),
+        dn \in Pick(BOOLEAN) :
+       \E bes \in Pick(BackendsOf(world.services[si])) :
+         LET i == Len(world.ingresses) + 1
+             rules == IF dn THEN bes ELSE Tail(bes)
+         IN /\ (~dn \/ Len(rules) > 0)
+            /\ Step("AddIngress", <<i>>,
+                    [world EXCEPT !.ingresses = Append(@, [ns |-> world.services[si].ns, name |-> "ing" \o ToString(i), defaultNil |-> dn,
+                                                          default |-> Head(bes), rules |-> rules])])
+
+AddRouteFor ==
+  /\ Len(world.routes) < 2
+  /\ \E si \in Pick({j \in DOMAIN world.services : Len(world.services[j].ports) > 0}) :
+       LET s == world.services[si]
+           i == Len(world.routes) + 1
+       IN \E tp \in Pick({OptNil, OptNum(s.ports[1].port), s.ports[Len(s.ports)].targetPort}
+                         \cup (IF s.ports[1].name # "" THEN {OptName(s.ports[1].name)} ELSE {})) :
+            Step("AddRoute", <<i>>,
+                 [world EXCEPT !.routes = Append(@, [ns |-> s.ns, name |-> "rt" \o ToString(i), to |-> s.name,
+                                                    alternates |-> <<>>, targetPort |-> tp])])
+
+IngrNext == AddService \/ AddIngress \/ AddRoute \/ AddServiceFor \/ AddIngressFor \/ AddRouteFor
 
 ---------------------------------------------------------------------------
 (* Emission.  Simulation: TLC 1.8 evaluates one randomly chosen action per step, so a behaviour is  *)
